@@ -2,23 +2,31 @@ import ClusterVerif.Spec.C10
 import ClusterVerif.Model.C10Source
 import ClusterVerif.Gen.C10
 import ClusterVerif.Lemmas.C04
+import ClusterVerif.Lemmas.C10
 import Batteries.Data.Nat.Bitwise.Lemmas
 import Mathlib.Data.List.Basic
 
 /-!
 # C10 — peer failure or removal re-homes under-replicated pins once and drops none
 
-Property theorems.
+Property theorems (helper lemmas: `Lemmas/C10.lean`; the engine there: every per-pin call of the three sweeps is
+*local* to its cid, so a round decomposes cid by cid).
 
-* `closest_at_most_one`, `closest_exists` — among members with pairwise distinct hashes that
-  trust each other, exactly one is closest to any CID (no bound on the number of members);
-  this is what makes "by exactly one surviving peer" and "unpinned by exactly one peer" hold.
-* `repin_preserves_options`, `repin_never_removes` — re-pinning away from a failed peer keeps
-  every option of the pin and never erases an entry; `repin_allocation` — when it stores new
-  allocations they are the ones chosen, which the C03 relation constrains.
-* `onAlert_follower_noop`, `onAlert_disabled_noop`, `vacate_disabled_noop`, `stateSync_follower_noop`.
-* `onAlert_keys`, `vacate_keys` — over a whole alert / removal handling no CID leaves the pinset.
-* `stateSync_only_expired` — the expiry sweep only unpins expired pins.
+* `closest_at_most_one`, `closest_exists` — among members with pairwise distinct hashes that trust each other,
+  exactly one is closest to any CID (no bound on the number of members).
+* **Round composition** (`AgreedRound`: the members share the view of the peerset, any schedule):
+  `round_cid`, `round_by_decider` (per cid the round is the decider acting alone on the pre-state),
+  `round_at_most_one_repin`, `round_exactly_one_repin`, `round_result_allocs`, `round_untouched_not_held`,
+  `round_untouched_min_met`, `round_never_removes`, `round_idempotent`, `round_rehomed_once`,
+  `snap_same_state` (snapshot discipline, commits in any order = serial discipline),
+  `round_schedule_irrelevant`, `round_state_is_commit`.
+* **Without agreement** (outside the property's quantifier): `disagreement_two_repinners`, `disagreement_nobody`.
+* **Peer removal**: `vacate_rehomes_all_or_reports`, `vacate_untouched_not_held`, `vacate_never_removes`,
+  `vacate_then_remove_order`, `peerRemove_not_aborted`.
+* **Expiry**: `expiry_once` (all orders, both disciplines), `expired_iff_clock`, `expiry_boundary` (all clock values).
+* per-member facts independent of the others: `onAlert_log_closest`, `alert_at_most_one_repinner`,
+  `repin_preserves_options`, `repin_other_untouched`, `stateSync_only_expired`, the four no-op theorems,
+  `handler_memoryless`.
 -/
 namespace CV.C10
 open CV
@@ -106,62 +114,304 @@ theorem stateSync_follower_noop (w : World) (pc : PeerCfg) (pre : PinMap)
     (h : pc.follower = true) : stateSync w pc pre = { st := pre, log := [] } := by
   unfold stateSync; simp [h]
 
-/-! ### re-pinning never removes an entry -/
-theorem keys_put_superset {m : PinMap} (hw : m.wf = true) (q : Pin) (c : Nat) (h : (m.get c).isSome = true) :
-    ((PinMap.put q m).get c).isSome = true := by
-  rw [get_put hw]
-  by_cases hq : q.cid = c
-  · simp [hq]
-  · simpa [hq] using h
+/-! ### one member, one event: the pinset afterwards is the commit of what was logged; nothing leaves it -/
 
-theorem repin_never_removes (pc : PeerCfg) (f : Nat) (ch : Chosen) (acc : Acc) (pin : Pin) (hw : acc.st.wf = true)
-    (c : Nat) (h : (acc.st.get c).isSome = true) :
-    ((repin pc f ch acc pin).st.wf = true) ∧ (((repin pc f ch acc pin).st.get c).isSome = true) := by
-  unfold repin
-  simp only
-  have hsh := C04.shape_pinOp { pc.base with follower := pc.follower } acc.st { pin with allocs := [] } [f] (ch pin.cid)
-  refine ⟨C04.shape_wf hsh hw, ?_⟩
-  rcases C04.pshape_pinOp { pc.base with follower := pc.follower } acc.st { pin with allocs := [] } [f] (ch pin.cid) with hr | ⟨q, _, hp⟩
-  · rw [C04.shape_refused hsh hr]; exact h
-  · rw [hp]; exact keys_put_superset hw _ c h
+/-- what `repinFromPeer` logs: nothing, or one pin for that cid -/
+theorem repin_logs_at_most_one (pc : PeerCfg) (f : Nat) (ch : Chosen) (st : PinMap) (x : Pin) :
+    (repinOut pc f ch st x).log = [] ∨ ∃ q : Pin, q.cid = x.cid ∧ (repinOut pc f ch st x).log = [.logPin q] :=
+  C04.lshape_pinOp pc.cfg st { x with allocs := [] } [f] (ch x.cid)
 
-theorem fold_keys {α} (step : Acc → α → Acc) (l : List α) (acc : Acc) (c : Nat)
-    (hstep : ∀ a x, a.st.wf = true → (a.st.get c).isSome = true →
-      (step a x).st.wf = true ∧ ((step a x).st.get c).isSome = true)
-    (hw : acc.st.wf = true) (h : (acc.st.get c).isSome = true) :
-    ((l.foldl step acc).st.wf = true) ∧ (((l.foldl step acc).st.get c).isSome = true) := by
-  induction l generalizing acc with
-  | nil => exact ⟨hw, h⟩
-  | cons x t ih =>
-    obtain ⟨h1, h2⟩ := hstep acc x hw h
-    exact ih (step acc x) h1 h2
+/-- any sweep of re-pins keeps the key set of the pinset: no cid leaves, none appears -/
+theorem sweep_repin_keys (cond : Pin → Bool) (pc : PeerCfg) (f : Nat) (ch : Chosen) (st : PinMap) (hw : st.wf = true) (c : Nat) :
+    ((sweepAll cond (repinOut pc f ch) st).st.get c).isSome = (st.get c).isSome := by
+  have hl := repinOut_local pc f ch
+  rw [(sweepAll_spec hl cond st hw).2.1, get_commitAll hw, sweepAll_forCid hl cond st hw c]
+  cases hg : st.get c with
+  | none => rfl
+  | some x =>
+    simp only
+    by_cases hx : cond x = true
+    · rw [if_pos hx]
+      rcases repin_logs_at_most_one pc f ch st x with h | ⟨q, _, h⟩ <;> rw [h] <;> rfl
+    · rw [if_neg hx]; rfl
 
-/-- No CID leaves the pinset while an alert is handled. -/
-theorem onAlert_keys (w : World) (pc : PeerCfg) (f : Nat) (ch : Chosen) (pre : PinMap) (hw : pre.wf = true)
-    (c : Nat) (h : (pre.get c).isSome = true) : ((onAlert w pc f ch pre).st.get c).isSome = true := by
+/-- No CID leaves the pinset while an alert is handled, and none is added. -/
+theorem onAlert_keys (w : World) (pc : PeerCfg) (f : Nat) (ch : Chosen) (pre : PinMap) (hw : pre.wf = true) (c : Nat) :
+    ((onAlert w pc f ch pre).st.get c).isSome = (pre.get c).isSome := by
   unfold onAlert
   split_ifs
-  · exact h
-  · refine (fold_keys _ pre { st := pre, log := [] } c ?_ hw h).2
-    intro a x haw hac
-    split_ifs
-    · exact repin_never_removes pc f ch a x haw c hac
-    · exact ⟨haw, hac⟩
+  · rfl
+  · exact sweep_repin_keys _ pc f ch pre hw c
 
-/-- No CID leaves the pinset while a peer is vacated (PeerRemove). -/
-theorem vacate_keys (pc : PeerCfg) (f : Nat) (ch : Chosen) (pre : PinMap) (hw : pre.wf = true)
-    (c : Nat) (h : (pre.get c).isSome = true) : ((vacate pc f ch pre).st.get c).isSome = true := by
+/-- No CID leaves the pinset while a peer is vacated (PeerRemove), and none is added. -/
+theorem vacate_keys (pc : PeerCfg) (f : Nat) (ch : Chosen) (pre : PinMap) (hw : pre.wf = true) (c : Nat) :
+    ((vacate pc f ch pre).st.get c).isSome = (pre.get c).isSome := by
   unfold vacate
   split_ifs
-  · exact h
-  · refine (fold_keys _ pre { st := pre, log := [] } c ?_ hw h).2
-    intro a x haw hac
-    split_ifs
-    · exact repin_never_removes pc f ch a x haw c hac
-    · exact ⟨haw, hac⟩
+  · rfl
+  · exact sweep_repin_keys _ pc f ch pre hw c
 
+/-! ### the members of a round as sweepers -/
 
-/-! ### re-pinning keeps every option and touches only that CID -/
+/-- the test a member applies to a pin when an alert for `f` arrives, with the two configuration switches -/
+def alertCondFull (f : Nat) (a : Actor) (x : Pin) : Bool :=
+  !(a.pc.follower || a.pc.disableRepin) && alertCond a.w a.pc f x
+
+def alertAct (f : Nat) (a : Actor) (st : PinMap) : Acc := onAlert a.w a.pc f a.ch st
+
+def alertSweeper (f : Nat) : Sweeper (fun st => st.wf = true) (alertAct f) where
+  cond := alertCondFull f
+  run := fun a => repinOut a.pc f a.ch
+  isLocal := fun a => repinOut_local a.pc f a.ch
+  eq := fun a st => by
+    unfold alertAct onAlert
+    by_cases h : (a.pc.follower || a.pc.disableRepin) = true
+    · rw [if_pos h]
+      have : alertCondFull f a = fun _ => false := by funext x; simp [alertCondFull, h]
+      rw [this, sweepAll_false]
+    · rw [if_neg h]
+      have : alertCondFull f a = alertCond a.w a.pc f := by
+        funext x
+        have h' : (a.pc.follower || a.pc.disableRepin) = false := by simpa using h
+        simp [alertCondFull, h']
+      rw [this]
+
+def syncCondFull (a : Actor) (x : Pin) : Bool := !a.pc.follower && syncCond a.w a.pc x
+def syncAct (a : Actor) (st : PinMap) : Acc := stateSync a.w a.pc st
+
+def syncSweeper : Sweeper allData syncAct where
+  cond := syncCondFull
+  run := fun a => unpinOut a.pc
+  isLocal := fun a => unpinOut_local a.pc
+  eq := fun a st => by
+    unfold syncAct stateSync
+    by_cases h : a.pc.follower = true
+    · rw [if_pos h]
+      have : syncCondFull a = fun _ => false := by funext x; simp [syncCondFull, h]
+      rw [this, sweepAll_false]
+    · rw [if_neg h]
+      have : syncCondFull a = syncCond a.w a.pc := by
+        funext x
+        have h' : a.pc.follower = false := by simpa using h
+        simp [syncCondFull, h']
+      rw [this]
+
+theorem roundSeq_eq (f : Nat) (sched : List Actor) (pre : PinMap) : roundSeq f sched pre = roundWith (alertAct f) sched pre := rfl
+theorem snapLogs_eq (f : Nat) (sched : List Actor) (pre : PinMap) : snapLogs f sched pre = snapLogsWith (alertAct f) sched pre := rfl
+theorem roundSync_eq (sched : List Actor) (pre : PinMap) : roundSync sched pre = roundWith syncAct sched pre := rfl
+theorem snapLogsSync_eq (sched : List Actor) (pre : PinMap) : snapLogsSync sched pre = snapLogsWith syncAct sched pre := rfl
+
+/-- One member handling one alert: the pinset it leaves is the commit of what it logged, and what it logged
+    for a cid is what `repinFromPeer` logs for the entry the pre-state holds, if the member's test passes. -/
+theorem onAlert_spec (a : Actor) (f : Nat) (pre : PinMap) (hw : pre.wf = true) (c : Nat) :
+    (alertAct f a pre).st = commitAll pre (alertAct f a pre).log ∧
+    forCid c (alertAct f a pre).log =
+      match pre.get c with
+      | some x => if alertCondFull f a x then (repinOut a.pc f a.ch pre x).log else []
+      | none => [] := by
+  rw [(alertSweeper f).eq]
+  exact ⟨(sweepAll_spec ((alertSweeper f).isLocal a) _ pre hw).2.1,
+    sweepAll_forCid ((alertSweeper f).isLocal a) _ pre hw c⟩
+
+/-! ### rounds: who decides -/
+
+/-- "given members agree on the peerset": the members taking part in the round share one view `w` of the
+    peerset and of who is trusted, are trusted members of it other than the failed (or excluded) one, appear
+    once, and have pairwise distinct hashes (blake2b collision-freeness is this hypothesis) -/
+structure AgreedRound (w : World) (ex : Option Nat) (sched : List Actor) : Prop where
+  view : ∀ a ∈ sched, a.w = w
+  mem : ∀ a ∈ sched, a.pc.self ∈ w.members.map (·.1) ∧ some a.pc.self ≠ ex ∧ a.pc.self ∉ w.untrusted
+  once : (sched.map (·.pc.self)).Nodup
+  hashes : ∀ a ∈ sched, ∀ b ∈ sched, w.peerHash a.pc.self = w.peerHash b.pc.self → a.pc.self = b.pc.self
+
+theorem AgreedRound.perm {w : World} {ex : Option Nat} {s s' : List Actor} (h : AgreedRound w ex s) (hp : s'.Perm s) :
+    AgreedRound w ex s' where
+  view := fun a ha => h.view a (hp.mem_iff.1 ha)
+  mem := fun a ha => h.mem a (hp.mem_iff.1 ha)
+  once := (hp.map _).nodup_iff.2 h.once
+  hashes := fun a ha b hb => h.hashes a (hp.mem_iff.1 ha) b (hp.mem_iff.1 hb)
+
+/-- in an agreed round at most one member is closest to a cid -/
+theorem agreed_unique {w : World} {ex : Option Nat} {sched : List Actor} (hA : AgreedRound w ex sched) (c : Nat)
+    (a : Actor) (ha : a ∈ sched) (b : Actor) (hb : b ∈ sched)
+    (hca : isClosest w a.pc.self ex c = true) (hcb : isClosest w b.pc.self ex c = true) : a.pc.self = b.pc.self := by
+  obtain ⟨ma, ea, ta⟩ := hA.mem a ha
+  obtain ⟨mb, eb, tb⟩ := hA.mem b hb
+  exact closest_at_most_one w ex c a.pc.self b.pc.self ma mb ea eb ta tb (hA.hashes a ha b hb) hca hcb
+
+/-- a schedule splits at the one member that is closest to `c`, if there is one -/
+theorem decider_split {w : World} {ex : Option Nat} {sched : List Actor} (hA : AgreedRound w ex sched) (c : Nat) :
+    (∀ a ∈ sched, isClosest w a.pc.self ex c = false) ∨
+    ∃ s1 d s2, sched = s1 ++ d :: s2 ∧ isClosest w d.pc.self ex c = true ∧
+      (∀ a ∈ s1, isClosest w a.pc.self ex c = false) ∧ (∀ a ∈ s2, isClosest w a.pc.self ex c = false) := by
+  rcases split_at_unique (fun a : Actor => isClosest w a.pc.self ex c = true) (fun a => a.pc.self) sched hA.once
+      (fun a ha b hb => agreed_unique hA c a ha b hb) with h | ⟨s1, d, s2, e, hd, h1, h2⟩
+  · exact Or.inl (fun a ha => by simpa using h a ha)
+  · exact Or.inr ⟨s1, d, s2, e, hd, fun a ha => by simpa using h1 a ha, fun a ha => by simpa using h2 a ha⟩
+
+theorem alert_idle {w : World} {f : Nat} {a : Actor} (hv : a.w = w) {c : Nat}
+    (h : isClosest w a.pc.self (some f) c = false) : ∀ x : Pin, x.cid = c → alertCondFull f a x = false := by
+  intro x hx
+  unfold alertCondFull alertCond
+  rw [hv, hx, h]; simp
+
+theorem sync_idle {w : World} {a : Actor} (hv : a.w = w) {c : Nat}
+    (h : isClosest w a.pc.self none c = false) : ∀ x : Pin, x.cid = c → syncCondFull a x = false := by
+  intro x hx
+  unfold syncCondFull syncCond
+  rw [hv, hx, h]; simp
+/-! ### the round, cid by cid -/
+
+/-- **Round composition.** In an agreed round, for every schedule (= order in which the members handle the
+    alert) and every cid `c`: either one member `d` is closest to `c`, and then over the whole round the
+    operations logged for `c` are exactly those `d` logs handling the alert alone on the pre-state, the entry
+    the round leaves for `c` is the one `d` alone leaves, and the snapshot discipline logs the same; or no
+    member of the schedule is closest, nothing is logged for `c` and its entry stays. -/
+theorem round_cid (w : World) (f : Nat) (sched : List Actor) (pre : PinMap)
+    (hA : AgreedRound w (some f) sched) (hw : pre.wf = true) (c : Nat) :
+    (∃ d ∈ sched, isClosest w d.pc.self (some f) c = true ∧
+      roundFor c (roundSeq f sched pre).2 = (forCid c (alertAct f d pre).log).map (fun e => (d.pc.self, e)) ∧
+      (roundSeq f sched pre).1.get c = (alertAct f d pre).st.get c ∧
+      roundFor c (snapLogs f sched pre) = roundFor c (roundSeq f sched pre).2) ∨
+    ((∀ a ∈ sched, isClosest w a.pc.self (some f) c = false) ∧
+      roundFor c (roundSeq f sched pre).2 = [] ∧ (roundSeq f sched pre).1.get c = pre.get c ∧
+      roundFor c (snapLogs f sched pre) = []) := by
+  rw [roundSeq_eq, snapLogs_eq]
+  rcases decider_split hA c with h | ⟨s1, d, s2, e, hd, h1, h2⟩
+  · right
+    have hid : ∀ a ∈ sched, ∀ x : Pin, x.cid = c → (alertSweeper f).cond a x = false :=
+      fun a ha => alert_idle (hA.view a ha) (h a ha)
+    obtain ⟨j1, j2⟩ := roundWith_idle (alertSweeper f) c sched pre hw hid
+    exact ⟨h, j1, j2, snap_idle (alertSweeper f) c sched pre hw hid⟩
+  · left
+    subst e
+    have hid1 : ∀ a ∈ s1, ∀ x : Pin, x.cid = c → (alertSweeper f).cond a x = false :=
+      fun a ha => alert_idle (hA.view a (by simp [ha])) (h1 a ha)
+    have hid2 : ∀ a ∈ s2, ∀ x : Pin, x.cid = c → (alertSweeper f).cond a x = false :=
+      fun a ha => alert_idle (hA.view a (by simp [ha])) (h2 a ha)
+    obtain ⟨j1, j2⟩ := roundWith_decider (alertSweeper f) c s1 s2 d pre hw hid1 hid2
+    refine ⟨d, by simp, hd, j1, j2, ?_⟩
+    rw [snap_decider (alertSweeper f) c s1 s2 d pre hw hid1 hid2, j1]
+
+/-- the same, naming the decider: whoever of the schedule is closest to `c` is the one -/
+theorem round_by_decider (w : World) (f : Nat) (sched : List Actor) (pre : PinMap)
+    (hA : AgreedRound w (some f) sched) (hw : pre.wf = true) (c : Nat)
+    (d : Actor) (hd : d ∈ sched) (hc : isClosest w d.pc.self (some f) c = true) :
+    roundFor c (roundSeq f sched pre).2 = (forCid c (alertAct f d pre).log).map (fun e => (d.pc.self, e)) ∧
+    (roundSeq f sched pre).1.get c = (alertAct f d pre).st.get c ∧
+    roundFor c (snapLogs f sched pre) = roundFor c (roundSeq f sched pre).2 := by
+  rcases round_cid w f sched pre hA hw c with ⟨d', hd', hc', r⟩ | ⟨hn, _⟩
+  · have hs := agreed_unique hA c d hd d' hd' hc hc'
+    have : d = d' := List.inj_on_of_nodup_map hA.once hd hd' hs
+    subst this; exact r
+  · rw [hn d hd] at hc; cases hc
+
+/-- the pinset a serial round leaves is the commit, in acting order, of everything the members logged -/
+theorem round_state_is_commit (f : Nat) (sched : List Actor) (pre : PinMap) (hw : pre.wf = true) :
+    (roundSeq f sched pre).1.wf = true ∧
+    (roundSeq f sched pre).1 = commitAll pre (allEntries (roundSeq f sched pre).2) :=
+  roundWith_commit (alertSweeper f) sched pre hw
+
+/-- what a member logs for one cid in one alert: at most one operation, and a pin -/
+theorem alertAct_forCid_shape (f : Nat) (a : Actor) (pre : PinMap) (hw : pre.wf = true) (c : Nat) :
+    forCid c (alertAct f a pre).log = [] ∨ ∃ q : Pin, q.cid = c ∧ forCid c (alertAct f a pre).log = [.logPin q] := by
+  rw [(onAlert_spec a f pre hw c).2]
+  cases hg : pre.get c with
+  | none => exact Or.inl rfl
+  | some x =>
+    simp only
+    by_cases hx : alertCondFull f a x = true
+    · rw [if_pos hx]
+      rcases repin_logs_at_most_one a.pc f a.ch pre x with h | ⟨q, hq, h⟩
+      · exact Or.inl h
+      · exact Or.inr ⟨q, by rw [hq, (get_some_mem hg).2], h⟩
+    · rw [if_neg hx]; exact Or.inl rfl
+
+/-- **Re-homed once.** Over a whole agreed round, in any order and under both commit disciplines, at most one
+    LogPin is issued for any cid, never an unpin, and only by the member closest to it. -/
+theorem round_at_most_one_repin (w : World) (f : Nat) (sched : List Actor) (pre : PinMap)
+    (hA : AgreedRound w (some f) sched) (hw : pre.wf = true) (c : Nat) :
+    roundFor c (roundSeq f sched pre).2 = [] ∨
+    ∃ d ∈ sched, ∃ q : Pin, q.cid = c ∧ isClosest w d.pc.self (some f) c = true ∧
+      roundFor c (roundSeq f sched pre).2 = [(d.pc.self, .logPin q)] := by
+  rcases round_cid w f sched pre hA hw c with ⟨d, hd, hc, r, _, _⟩ | ⟨_, r, _⟩
+  · rcases alertAct_forCid_shape f d pre hw c with h | ⟨q, hq, h⟩
+    · left; rw [r, h]; rfl
+    · right; exact ⟨d, hd, q, hq, hc, by rw [r, h]; rfl⟩
+  · exact Or.inl r
+
+/-- **Both commit disciplines agree.** Every member handles the alert against the same pre-state and the
+    logged operations reach the shared pinset afterwards in *any* order: the pinset is the one the serial
+    round leaves, and member by member the same operations were logged. -/
+theorem snap_same_state (w : World) (f : Nat) (sched : List Actor) (pre : PinMap)
+    (hA : AgreedRound w (some f) sched) (hw : pre.wf = true)
+    (order : List C04.LogEntry) (hp : order.Perm (allEntries (snapLogs f sched pre))) :
+    commitAll pre order = (roundSeq f sched pre).1 := by
+  obtain ⟨hwf, hcm⟩ := round_state_is_commit f sched pre hw
+  apply ext_of_wf (wf_commitAll hw _) hwf
+  intro c
+  rw [hcm, get_commitAll hw, get_commitAll hw]
+  have hsnap : forCid c (allEntries (snapLogs f sched pre)) = forCid c (allEntries (roundSeq f sched pre).2) := by
+    rw [← roundFor_entries, ← roundFor_entries]
+    rcases round_cid w f sched pre hA hw c with ⟨_, _, _, _, _, r⟩ | ⟨_, r1, _, r2⟩
+    · rw [r]
+    · rw [r1, r2]
+  have hperm : (forCid c order).Perm (forCid c (allEntries (roundSeq f sched pre).2)) := by
+    rw [← hsnap]; exact hp.filter _
+  have hshort : forCid c (allEntries (roundSeq f sched pre).2) = [] ∨
+      ∃ e, forCid c (allEntries (roundSeq f sched pre).2) = [e] := by
+    rw [← roundFor_entries]
+    rcases round_at_most_one_repin w f sched pre hA hw c with h | ⟨d, _, q, _, _, h⟩
+    · left; rw [h]; rfl
+    · right; exact ⟨_, by rw [h]; rfl⟩
+  rcases hshort with h | ⟨e, h⟩
+  · rw [h] at hperm ⊢; rw [hperm.eq_nil]
+  · rw [h] at hperm ⊢; rw [List.perm_singleton.1 hperm]
+
+/-- **The schedule does not matter.** Any two orders of the same members leave the same pinset. -/
+theorem round_schedule_irrelevant (w : World) (f : Nat) (sched sched' : List Actor) (pre : PinMap)
+    (hA : AgreedRound w (some f) sched) (hw : pre.wf = true) (hp : sched'.Perm sched) :
+    (roundSeq f sched' pre).1 = (roundSeq f sched pre).1 := by
+  have hA' := hA.perm hp
+  rw [← snap_same_state w f sched' pre hA' hw (allEntries (snapLogs f sched' pre)) (List.Perm.refl _)]
+  apply snap_same_state w f sched pre hA hw
+  unfold allEntries snapLogs snapLogsWith
+  exact (hp.map _).flatMap_right _
+
+/-- **No pin is ever removed (and none appears)**: the key set of the pinset is preserved by a round — whatever
+    the members' views, flags, order, allocator choices. -/
+theorem round_never_removes (f : Nat) (sched : List Actor) (pre : PinMap) (hw : pre.wf = true) (c : Nat) :
+    (roundSeq f sched pre).1.wf = true ∧ ((roundSeq f sched pre).1.get c).isSome = (pre.get c).isSome := by
+  rw [roundSeq_eq]
+  induction sched generalizing pre with
+  | nil => exact ⟨hw, rfl⟩
+  | cons a t ih =>
+    rw [roundWith_cons]
+    have hw' : (alertAct f a pre).st.wf = true := act_inv (alertSweeper f) a pre hw
+    obtain ⟨i1, i2⟩ := ih (alertAct f a pre).st hw'
+    exact ⟨i1, by rw [i2]; exact onAlert_keys a.w a.pc f a.ch pre hw c⟩
+
+/-- …and under the snapshot discipline no unpin is ever committed: every logged operation is a pin of a cid
+    the pre-state holds -/
+theorem round_logs_only_pins (f : Nat) (a : Actor) (pre : PinMap) (hw : pre.wf = true) :
+    ∀ e ∈ (alertAct f a pre).log, ∃ q : Pin, e = .logPin q ∧ (pre.get q.cid).isSome = true := by
+  intro e he
+  have hmem : e ∈ forCid (entryCid e) (alertAct f a pre).log := mem_forCid.2 ⟨he, rfl⟩
+  rw [(onAlert_spec a f pre hw (entryCid e)).2] at hmem
+  cases hg : pre.get (entryCid e) with
+  | none => rw [hg] at hmem; cases hmem
+  | some x =>
+    rw [hg] at hmem
+    simp only at hmem
+    split_ifs at hmem
+    · rcases repin_logs_at_most_one a.pc f a.ch pre x with h | ⟨q, hq, h⟩
+      · rw [h] at hmem; cases hmem
+      · rw [h, List.mem_singleton] at hmem
+        refine ⟨q, hmem, ?_⟩
+        have : q.cid = entryCid e := by rw [hmem]; rfl
+        rw [this, hg]; rfl
+    · cases hmem
+
 theorem setupFactors_noop (cfg : C04.Cfg) (p : Pin) (h1 : p.opts.rmin ≠ 0) (h2 : p.opts.rmax ≠ 0) (ha : p.allocs = []) :
     C04.setupFactors cfg p = p := by
   unfold C04.setupFactors C04.effRmin C04.effRmax
@@ -173,19 +423,618 @@ theorem setupFactors_noop (cfg : C04.Cfg) (p : Pin) (h1 : p.opts.rmin ≠ 0) (h2
   subst ha
   split_ifs <;> rfl
 
+def repinInput (pc : PeerCfg) (f : Nat) (x : Pin) : C03.Input :=
+  { desc := pc.base.desc, rmin := x.opts.rmin, rmax := x.opts.rmax, peers := pc.base.peers,
+    current := x.allocs, blacklist := [f], priority := x.opts.ualloc }
+
+structure Repinnable (x : Pin) : Prop where
+  rmin : x.opts.rmin ≠ 0
+  rmax : x.opts.rmax ≠ 0
+  valid : C03.factorsValid x.opts.rmin x.opts.rmax = true
+  live : x.opts.expire.beforeNow = false
+  data : x.type = .dataT
+  noref : x.ref = none
+  stored : x.stored = x
+
+theorem repinOut_data' (pc : PeerCfg) (f : Nat) (ch : Chosen) (st : PinMap) (x : Pin)
+    (hget : st.get x.cid = some x) (hfol : pc.follower = false) (hr : Repinnable x) :
+    repinOut pc f ch st x =
+      (match C03.allocate (repinInput pc f x) with
+       | .ok _ => { C04.logPin st { x with allocs := ch x.cid } with alloc := some (repinInput pc f x) }
+       | _ => { C04.err st with alloc := some (repinInput pc f x) }) := by
+  unfold repinOut C04.pinOp
+  have hcf : pc.cfg.follower = false := hfol
+  simp only [hcf, Bool.false_eq_true, if_false, List.isEmpty_cons]
+  unfold C04.pinBody
+  have hs : C04.setupFactors pc.cfg ({ x with allocs := [] } : Pin) = { x with allocs := [] } :=
+    setupFactors_noop _ _ hr.rmin hr.rmax rfl
+  have e1 : C04.effRmin pc.cfg ({ x with allocs := [] } : Pin) = x.opts.rmin := by
+    unfold C04.effRmin; simp [hr.rmin]
+  have e2 : C04.effRmax pc.cfg ({ x with allocs := [] } : Pin) = x.opts.rmax := by
+    unfold C04.effRmax; simp [hr.rmax]
+  have hk : C04.keepOrNew (some x) ({ x with allocs := [] } : Pin) [f] = { x with allocs := [] } := by
+    unfold C04.keepOrNew; simp
+  have hty : C04.typeOk (some x) ({ x with allocs := [] } : Pin) = true := by
+    unfold C04.typeOk C04.checkPinType; cases hmo : x.opts.mode <;> simp [hr.data, hr.noref, hmo]
+  have hm : (x.type == PinType.metaT) = false := by rw [hr.data]; rfl
+  have hin : C04.allocIn pc.cfg (some x) ({ x with allocs := [] } : Pin) [f] = repinInput pc f x := rfl
+  simp only [hs, e1, e2, hr.valid, hget, hr.live, hk, hty, hm, hin, Bool.not_true, Bool.false_eq_true, if_false,
+    List.isEmpty_nil, if_true]
+  generalize C03.allocate (repinInput pc f x) = o
+  cases o <;> rfl
+
+theorem repinOut_data (pc : PeerCfg) (f : Nat) (ch : Chosen) (st : PinMap) (x : Pin)
+    (hget : st.get x.cid = some x) (hfol : pc.follower = false) (hr : Repinnable x) :
+    (repinOut pc f ch st x).log =
+      (match C03.allocate (repinInput pc f x) with
+       | .ok _ => [.logPin { x with allocs := ch x.cid }]
+       | _ => []) := by
+  rw [repinOut_data' pc f ch st x hget hfol hr]
+  generalize C03.allocate (repinInput pc f x) = o
+  cases o <;> rfl
+
+/-! C03 arms -/
+theorem keep_arm (i : C03.Input) (hpos : 0 < i.rmin) (hle : i.rmin ≤ i.rmax)
+    (h1 : i.rmin ≤ ((C03.curIds i).length : Int)) (h2 : ((C03.curIds i).length : Int) ≤ i.rmax) :
+    C03.allocate i = .ok i.current ∧ ∀ l, C03.allowed i (.ok l) = true → l = i.current := by
+  have c1 : ¬ (i.rmin + i.rmax == 0) = true := by simp only [beq_iff_eq]; omega
+  have c2 : ¬ (decide (i.rmin < 0) && decide (i.rmax < 0)) = true := by
+    simp only [Bool.and_eq_true, decide_eq_true_eq]; omega
+  have c3 : ¬ (i.rmax - ((C03.curIds i).length : Int) < 0) := by omega
+  have c4 : i.rmin - ((C03.curIds i).length : Int) ≤ 0 := by omega
+  constructor
+  · unfold C03.allocate
+    simp only [c1, c2, c3, c4, Bool.false_eq_true, if_false, if_true]
+  · intro l hl
+    unfold C03.allowed at hl
+    simp only [c1, c2, c3, c4, Bool.false_eq_true, if_false, if_true, beq_iff_eq, C03.Output.ok.injEq] at hl
+    exact hl
+
+theorem alloc_arm_good (i : C03.Input) (hw : C03.wf i = true) (hpos : 0 < i.rmin) (hle : i.rmin ≤ i.rmax)
+    (hunder : ((C03.curIds i).length : Int) < i.rmin) (l : List Nat) (hl : C03.allowed i (.ok l) = true) :
+    ∀ p ∈ l, C03.good i p = true := by
+  have c1 : ¬ (i.rmin + i.rmax == 0) = true := by simp only [beq_iff_eq]; omega
+  have c2 : ¬ (decide (i.rmin < 0) && decide (i.rmax < 0)) = true := by
+    simp only [Bool.and_eq_true, decide_eq_true_eq]; omega
+  have c3 : ¬ (i.rmax - ((C03.curIds i).length : Int) < 0) := by omega
+  have c4 : ¬ (i.rmin - ((C03.curIds i).length : Int) ≤ 0) := by omega
+  unfold C03.allowed at hl
+  simp only [c1, c2, c3, c4, Bool.false_eq_true, if_false] at hl
+  split_ifs at hl
+  · simp at hl
+  · simp at hl
+  · rw [C03.okWith_iff] at hl
+    obtain ⟨l', e, hok⟩ := hl
+    cases e
+    rw [C03.okAlloc_iff] at hok
+    obtain ⟨hhead, _, ha, hb⟩ := hok
+    obtain ⟨a1, _, _⟩ := C03.isTopK_spec ha
+    obtain ⟨b1, _, _⟩ := C03.isTopK_spec hb
+    intro p hp
+    rw [← List.take_append_drop (C03.curIds i).length l, List.mem_append] at hp
+    rcases hp with hp | hp
+    · exact ((C03.mem_curIds hw).1 (hhead.mem_iff.1 hp)).2
+    · rw [← List.take_append_drop (min (min (i.rmax - ((C03.curIds i).length : Int)).toNat
+          ((C03.numerics (C03.priM i)).length + (C03.numerics (C03.candM i)).length)) (C03.numerics (C03.priM i)).length)
+          (List.drop (C03.curIds i).length l), List.mem_append] at hp
+      rcases hp with hp | hp
+      · obtain ⟨v, hv⟩ := a1 p hp
+        obtain ⟨hs, hb', _, _⟩ := (C03.priNum_spec hw).1 (C03.lookupVal_some hv)
+        rw [C03.good_iff]; exact ⟨by rw [hs]; rfl, hb'⟩
+      · obtain ⟨v, hv⟩ := b1 p hp
+        obtain ⟨hs, hb', _, _⟩ := (C03.candNum_spec hw).1 (C03.lookupVal_some hv)
+        rw [C03.good_iff]; exact ⟨by rw [hs]; rfl, hb'⟩
+
 theorem stored_with_allocs (p : Pin) (al : List Nat) (h : p.stored = p) :
     ({ p with allocs := al } : Pin).stored = { p with allocs := al } := by
   have : ({ p with allocs := al } : Pin).stored = { p.stored with allocs := al } := rfl
   rw [this, h]
 
-theorem repin_preserves_options (pc : PeerCfg) (f : Nat) (ch : Chosen) (acc : Acc) (p : Pin)
-    (hw : acc.st.wf = true) (hget : acc.st.get p.cid = some p) (hst : p.stored = p)
+/-- the entry a member leaves for `c` is decided by what it logged for `c` -/
+theorem alertAct_get (f : Nat) (a : Actor) (pre : PinMap) (hw : pre.wf = true) (c : Nat) :
+    (alertAct f a pre).st.get c = (forCid c (alertAct f a pre).log).foldl effect (pre.get c) := by
+  rw [(onAlert_spec a f pre hw c).1, get_commitAll hw]
+
+theorem alertCondFull_true {w : World} {f : Nat} {d : Actor} (hv : d.w = w) {x : Pin}
+    (hheld : x.allocs.contains f = true) (hc : isClosest w d.pc.self (some f) x.cid = true)
+    (hact : canAct d.pc = true) : alertCondFull f d x = true := by
+  unfold canAct at hact
+  unfold alertCondFull alertCond
+  rw [hv, hheld, hc]
+  simp only [Bool.and_eq_true, Bool.not_eq_true'] at hact
+  simp [hact.1, hact.2]
+
+/-- **Exactly one.** A pin held by the failed peer, which can be re-pinned (stored data pin with valid
+    factors, not expired, allocation possible in the decider's view of the metrics), whose closest member can
+    act: in every schedule and under both commit disciplines exactly one LogPin is issued for its cid over the
+    whole round, by that closest member, and the round leaves the pin with exactly its allocations changed. -/
+theorem round_exactly_one_repin (w : World) (f : Nat) (sched : List Actor) (pre : PinMap)
+    (hA : AgreedRound w (some f) sched) (hw : pre.wf = true) (x : Pin) (hx : pre.get x.cid = some x)
+    (hheld : x.allocs.contains f = true) (d : Actor) (hd : d ∈ sched)
+    (hc : isClosest w d.pc.self (some f) x.cid = true) (hact : canAct d.pc = true) (hr : Repinnable x)
+    (l0 : List Nat) (hal : C03.allocate (repinInput d.pc f x) = .ok l0) :
+    roundFor x.cid (roundSeq f sched pre).2 = [(d.pc.self, .logPin { x with allocs := d.ch x.cid })] ∧
+    (roundSeq f sched pre).1.get x.cid = some { x with allocs := d.ch x.cid } ∧
+    roundFor x.cid (snapLogs f sched pre) = [(d.pc.self, .logPin { x with allocs := d.ch x.cid })] := by
+  obtain ⟨r1, r2, r3⟩ := round_by_decider w f sched pre hA hw x.cid d hd hc
+  have hfol : d.pc.follower = false := by
+    unfold canAct at hact; simp only [Bool.and_eq_true, Bool.not_eq_true'] at hact; exact hact.1
+  have hlog : forCid x.cid (alertAct f d pre).log = [.logPin { x with allocs := d.ch x.cid }] := by
+    rw [(onAlert_spec d f pre hw x.cid).2, hx]
+    simp only
+    rw [if_pos (alertCondFull_true (hA.view d hd) hheld hc hact), repinOut_data d.pc f d.ch pre x hx hfol hr, hal]
+  have hst : (alertAct f d pre).st.get x.cid = some { x with allocs := d.ch x.cid } := by
+    rw [alertAct_get f d pre hw, hlog]
+    show some ({ x with allocs := d.ch x.cid } : Pin).stored = _
+    rw [stored_with_allocs x _ hr.stored]
+  refine ⟨?_, ?_, ?_⟩
+  · rw [r1, hlog]; rfl
+  · rw [r2, hst]
+  · rw [r3, r1, hlog]; rfl
+
+/-- **Where it goes.** If moreover the pin is under-replicated in the decider's view (fewer healthy holders
+    other than the failed peer than its minimum) and the decider's allocator made a choice the C03 relation
+    admits, the pin the round leaves has every option of the old one, is allocated to healthy peers only, never to
+    the failed one, and satisfies every clause of C03. -/
+theorem round_result_allocs (w : World) (f : Nat) (sched : List Actor) (pre : PinMap)
+    (hA : AgreedRound w (some f) sched) (hw : pre.wf = true) (x : Pin) (hx : pre.get x.cid = some x)
+    (hheld : x.allocs.contains f = true) (d : Actor) (hd : d ∈ sched)
+    (hc : isClosest w d.pc.self (some f) x.cid = true) (hact : canAct d.pc = true) (hr : Repinnable x)
+    (l0 : List Nat) (hal : C03.allocate (repinInput d.pc f x) = .ok l0)
+    (hwf : C03.wf (repinInput d.pc f x) = true) (hpos : 0 < x.opts.rmin) (hle : x.opts.rmin ≤ x.opts.rmax)
+    (hunder : ((C03.curIds (repinInput d.pc f x)).length : Int) < x.opts.rmin)
+    (hadm : C03.allowed (repinInput d.pc f x) (.ok (d.ch x.cid)) = true) :
+    ∃ q, (roundSeq f sched pre).1.get x.cid = some q ∧ q = { x with allocs := q.allocs } ∧
+      (∀ p ∈ q.allocs, p ≠ f ∧ (C03.stateOf (repinInput d.pc f x) p).healthy = true) ∧
+      C03.holds (repinInput d.pc f x) (.ok q.allocs) = true := by
+  obtain ⟨_, r2, _⟩ := round_exactly_one_repin w f sched pre hA hw x hx hheld d hd hc hact hr l0 hal
+  refine ⟨_, r2, rfl, ?_, C03.allowed_holds _ _ hwf hadm⟩
+  intro p hp
+  have hg := alloc_arm_good (repinInput d.pc f x) hwf hpos hle hunder _ hadm p hp
+  rw [C03.good_iff] at hg
+  refine ⟨?_, hg.1⟩
+  intro e; subst e
+  exact hg.2 (by simp [repinInput])
+
+/-- **Untouched (1).** A pin the failed peer does not hold: nothing is logged for it by anybody and its entry
+    stays, in every schedule and under both disciplines. -/
+theorem round_untouched_not_held (w : World) (f : Nat) (sched : List Actor) (pre : PinMap)
+    (hA : AgreedRound w (some f) sched) (hw : pre.wf = true) (x : Pin) (hx : pre.get x.cid = some x)
+    (hnot : x.allocs.contains f = false) :
+    roundFor x.cid (roundSeq f sched pre).2 = [] ∧ (roundSeq f sched pre).1.get x.cid = some x ∧
+    roundFor x.cid (snapLogs f sched pre) = [] := by
+  rcases round_cid w f sched pre hA hw x.cid with ⟨d, hd, hc, r1, r2, r3⟩ | ⟨_, r1, r2, r3⟩
+  · have hlog : forCid x.cid (alertAct f d pre).log = [] := by
+      rw [(onAlert_spec d f pre hw x.cid).2, hx]
+      simp only
+      have : alertCondFull f d x = false := by unfold alertCondFull alertCond; rw [hnot]; simp
+      rw [this]; rfl
+    refine ⟨by rw [r1, hlog]; rfl, ?_, by rw [r3, r1, hlog]; rfl⟩
+    rw [r2, alertAct_get f d pre hw, hlog, hx]; rfl
+  · exact ⟨r1, by rw [r2, hx], r3⟩
+
+/-- **Untouched (2).** A pin the failed peer holds but which every member sees still meeting its minimum (and
+    not above its maximum: K08) with the remaining healthy holders: its entry stays as it is. (The closest
+    member does issue one LogPin — of the identical pin: `allocate` returns the current allocations.) -/
+theorem round_untouched_min_met (w : World) (f : Nat) (sched : List Actor) (pre : PinMap)
+    (hA : AgreedRound w (some f) sched) (hw : pre.wf = true) (x : Pin) (hx : pre.get x.cid = some x)
+    (hr : Repinnable x) (hpos : 0 < x.opts.rmin) (hle : x.opts.rmin ≤ x.opts.rmax)
+    (hmet : ∀ a ∈ sched, x.opts.rmin ≤ ((C03.curIds (repinInput a.pc f x)).length : Int) ∧
+      ((C03.curIds (repinInput a.pc f x)).length : Int) ≤ x.opts.rmax ∧
+      C03.allowed (repinInput a.pc f x) (.ok (a.ch x.cid)) = true) :
+    (roundSeq f sched pre).1.get x.cid = some x := by
+  rcases round_cid w f sched pre hA hw x.cid with ⟨d, hd, hc, _, r2, _⟩ | ⟨_, _, r2, _⟩
+  · rw [r2, alertAct_get f d pre hw, (onAlert_spec d f pre hw x.cid).2, hx]
+    simp only
+    by_cases hcond : alertCondFull f d x = true
+    · rw [if_pos hcond]
+      have hfol : d.pc.follower = false := by
+        unfold alertCondFull at hcond
+        simp only [Bool.and_eq_true, Bool.not_eq_true', Bool.or_eq_false_iff] at hcond
+        exact hcond.1.1
+      obtain ⟨m1, m2, m3⟩ := hmet d hd
+      obtain ⟨k1, k2⟩ := keep_arm (repinInput d.pc f x) hpos hle m1 m2
+      rw [repinOut_data d.pc f d.ch pre x hx hfol hr, k1]
+      have : d.ch x.cid = x.allocs := k2 _ m3
+      rw [this]
+      show some ({ x with allocs := x.allocs } : Pin).stored = some x
+      rw [stored_with_allocs x _ hr.stored]
+    · rw [if_neg hcond]; rfl
+  · rw [r2, hx]
+
+/-- **Idempotent.** Once the failed peer no longer holds a pin (which is what a re-home achieves:
+    `round_result_allocs`), any further round for the same peer — repeated alert, other order, other allocator
+    choices, other flags — logs nothing for it and leaves it as it is. -/
+theorem round_idempotent (w : World) (f : Nat) (sched sched2 : List Actor) (pre : PinMap)
+    (hA2 : AgreedRound w (some f) sched2) (hw : pre.wf = true) (q : Pin)
+    (hq : (roundSeq f sched pre).1.get q.cid = some q) (hgone : q.allocs.contains f = false) :
+    roundFor q.cid (roundSeq f sched2 (roundSeq f sched pre).1).2 = [] ∧
+    (roundSeq f sched2 (roundSeq f sched pre).1).1.get q.cid = some q :=
+  let h := round_untouched_not_held w f sched2 _ hA2 (round_never_removes f sched pre hw q.cid).1 q hq hgone
+  ⟨h.1, h.2.1⟩
+
+/-- the re-homed pin of `round_exactly_one_repin` / `round_result_allocs` is re-homed once: a second round logs nothing for it -/
+theorem round_rehomed_once (w : World) (f : Nat) (sched sched2 : List Actor) (pre : PinMap)
+    (hA : AgreedRound w (some f) sched) (hA2 : AgreedRound w (some f) sched2) (hw : pre.wf = true)
+    (x : Pin) (hx : pre.get x.cid = some x)
+    (hheld : x.allocs.contains f = true) (d : Actor) (hd : d ∈ sched)
+    (hc : isClosest w d.pc.self (some f) x.cid = true) (hact : canAct d.pc = true) (hr : Repinnable x)
+    (l0 : List Nat) (hal : C03.allocate (repinInput d.pc f x) = .ok l0)
+    (hwf : C03.wf (repinInput d.pc f x) = true) (hpos : 0 < x.opts.rmin) (hle : x.opts.rmin ≤ x.opts.rmax)
+    (hunder : ((C03.curIds (repinInput d.pc f x)).length : Int) < x.opts.rmin)
+    (hadm : C03.allowed (repinInput d.pc f x) (.ok (d.ch x.cid)) = true) :
+    roundFor x.cid (roundSeq f sched2 (roundSeq f sched pre).1).2 = [] := by
+  obtain ⟨q, hq, hqe, hgood, _⟩ := round_result_allocs w f sched pre hA hw x hx hheld d hd hc hact hr l0 hal hwf hpos hle hunder hadm
+  have hcid : q.cid = x.cid := by rw [hqe]
+  have hgone : q.allocs.contains f = false := by
+    rw [Bool.eq_false_iff]; intro hcon
+    have := (hgood f (by simpa using hcon)).1
+    exact this rfl
+  have := (round_idempotent w f sched sched2 pre hA2 hw q (by rw [hcid]; exact hq) hgone).1
+  rw [hcid] at this; exact this
+
+/-! ### members that do NOT agree on the peerset (outside the property's quantifier) -/
+
+private def dBase : C04.Cfg :=
+  { follower := false, defMin := 1, defMax := 1, desc := false,
+    peers := [(0, .valid 1), (1, .valid 1), (3, .valid 1)], paths := [], blocks := [] }
+private def dPin : Pin :=
+  { cid := 7, type := .dataT, depth := -1, allocs := [2], ref := none,
+    opts := { rmin := 1, rmax := 1, name := 0, mode := .recursive, shard := 0, expire := .zero,
+              metadata := [], update := none, origins := [], ualloc := [] } }
+private def wA : World := { members := [(0, 1), (1, 2), (2, 100)], cidHash := [(7, 0)], untrusted := [] }
+private def wB : World := { members := [(1, 2), (2, 100), (3, 3)], cidHash := [(7, 0)], untrusted := [] }
+private def actA : Actor :=
+  { w := wA, pc := { self := 0, follower := false, disableRepin := false, base := dBase }, ch := fun _ => [0] }
+private def actB : Actor :=
+  { w := wB, pc := { self := 1, follower := false, disableRepin := false, base := dBase }, ch := fun _ => [1] }
+
+/-- **Without agreement "exactly one" fails.** Two members whose views of the peerset differ (member 0 does not
+    yet see member 3; member 1 no longer sees member 0) both consider themselves closest to cid 7: handling the
+    alert against the same pre-state (snapshot discipline — with the CRDT consensus every member reads its own
+    replica) each logs a pin, with different allocations, and the pinset that results depends on the order in
+    which the two commits arrive. -/
+theorem disagreement_two_repinners :
+    (fun w : World => w.peerHash 0) actA.w ≠ (fun w : World => w.peerHash 0) actB.w ∧
+    roundFor 7 (snapLogs 2 [actA, actB] [dPin]) =
+      [(0, .logPin { dPin with allocs := [0] }), (1, .logPin { dPin with allocs := [1] })] ∧
+    commitAll [dPin] [.logPin { dPin with allocs := [0] }, .logPin { dPin with allocs := [1] }] ≠
+    commitAll [dPin] [.logPin { dPin with allocs := [1] }, .logPin { dPin with allocs := [0] }] := by
+  decide
+
+private def wA' : World := { members := [(0, 5), (1, 2), (2, 100)], cidHash := [(7, 0)], untrusted := [] }
+private def wB' : World := { members := [(1, 2), (2, 100), (3, 1)], cidHash := [(7, 0)], untrusted := [] }
+private def actA' : Actor := { actA with w := wA', pc := { actA.pc with self := 0 } }
+private def actB' : Actor := { actB with w := wB' }
+
+/-- …and "at least one" fails too: member 0 sees member 1 closer, member 1 sees a member 3 closer that is not
+    there to act (it is not among the members the alert reaches): nobody re-homes the pin, which stays allocated
+    to the failed peer only, under either discipline. -/
+theorem disagreement_nobody :
+    roundFor 7 (roundSeq 2 [actA', actB'] [dPin]).2 = [] ∧ roundFor 7 (snapLogs 2 [actA', actB'] [dPin]) = [] ∧
+    (roundSeq 2 [actA', actB'] [dPin]).1 = [dPin] := by
+  decide
+
+/-! ### peer removal: `PeerRemove` = vacate, then the membership change -/
+
+/-- One member vacating a peer: the pinset it leaves is the commit of what it logged; for a cid it logged what
+    `repinFromPeer` logs for the entry the pre-state holds, if the peer holds the pin (no closest test). -/
+theorem vacate_spec (pc : PeerCfg) (f : Nat) (ch : Chosen) (pre : PinMap) (hw : pre.wf = true) (c : Nat) :
+    (vacate pc f ch pre).st = commitAll pre (vacate pc f ch pre).log ∧
+    forCid c (vacate pc f ch pre).log =
+      match pre.get c with
+      | some x => if !pc.disableRepin && x.allocs.contains f then (repinOut pc f ch pre x).log else []
+      | none => [] := by
+  unfold vacate
+  by_cases h : pc.disableRepin = true
+  · rw [if_pos h]
+    refine ⟨rfl, ?_⟩
+    cases pre.get c <;> simp [h, forCid]
+  · rw [if_neg h]
+    have h' : pc.disableRepin = false := by simpa using h
+    have hl := repinOut_local pc f ch
+    refine ⟨(sweepAll_spec hl _ pre hw).2.1, ?_⟩
+    rw [sweepAll_forCid hl _ pre hw c]
+    cases pre.get c <;> simp [h']
+
+/-- **Vacate re-homes every pin of the peer, or the re-pin reports an error and the pin is kept as it was.**
+    For every re-pinnable pin the removed peer holds: if an allocation exists (in this member's view of the
+    metrics) exactly one LogPin is committed and the entry afterwards is the old one with the chosen
+    allocations; otherwise `pin()` returns an error (which `repinFromPeer` drops after `allocate` has logged it),
+    nothing is logged for the cid and the entry is unchanged — the loop goes on with the next pin. -/
+theorem vacate_rehomes_all_or_reports (pc : PeerCfg) (f : Nat) (ch : Chosen) (pre : PinMap) (hw : pre.wf = true)
+    (x : Pin) (hx : pre.get x.cid = some x) (hheld : x.allocs.contains f = true)
+    (hact : canAct pc = true) (hr : Repinnable x) :
+    ((∃ l0, C03.allocate (repinInput pc f x) = .ok l0) →
+        forCid x.cid (vacate pc f ch pre).log = [.logPin { x with allocs := ch x.cid }] ∧
+        (vacate pc f ch pre).st.get x.cid = some { x with allocs := ch x.cid }) ∧
+    ((∀ l0, C03.allocate (repinInput pc f x) ≠ .ok l0) →
+        (repinOut pc f ch pre x).res = none ∧
+        forCid x.cid (vacate pc f ch pre).log = [] ∧ (vacate pc f ch pre).st.get x.cid = some x) := by
+  unfold canAct at hact
+  simp only [Bool.and_eq_true, Bool.not_eq_true'] at hact
+  obtain ⟨hfol, hdis⟩ := hact
+  obtain ⟨s1, s2⟩ := vacate_spec pc f ch pre hw x.cid
+  rw [hx] at s2
+  simp only [hdis, hheld, Bool.not_false, Bool.and_self, if_true] at s2
+  have hget : (vacate pc f ch pre).st.get x.cid = (forCid x.cid (vacate pc f ch pre).log).foldl effect (some x) := by
+    rw [s1, get_commitAll hw, hx]
+  constructor
+  · rintro ⟨l0, hal⟩
+    have hlog : forCid x.cid (vacate pc f ch pre).log = [.logPin { x with allocs := ch x.cid }] := by
+      rw [s2, repinOut_data pc f ch pre x hx hfol hr, hal]
+    refine ⟨hlog, ?_⟩
+    rw [hget, hlog]
+    show some ({ x with allocs := ch x.cid } : Pin).stored = _
+    rw [stored_with_allocs x _ hr.stored]
+  · intro hno
+    have hout := repinOut_data' pc f ch pre x hx hfol hr
+    have hlog : forCid x.cid (vacate pc f ch pre).log = [] := by
+      rw [s2, repinOut_data pc f ch pre x hx hfol hr]
+      cases hal : C03.allocate (repinInput pc f x) with
+      | ok l0 => exact absurd hal (hno l0)
+      | err => rfl
+      | panic => rfl
+    refine ⟨?_, hlog, by rw [hget, hlog]; rfl⟩
+    rw [hout]
+    cases hal : C03.allocate (repinInput pc f x) with
+    | ok l0 => exact absurd hal (hno l0)
+    | err => rfl
+    | panic => rfl
+
+/-- pins the removed peer does not hold are not touched by `PeerRemove` -/
+theorem vacate_untouched_not_held (pc : PeerCfg) (f : Nat) (ch : Chosen) (pre : PinMap) (hw : pre.wf = true)
+    (x : Pin) (hx : pre.get x.cid = some x) (hnot : x.allocs.contains f = false) :
+    forCid x.cid (vacate pc f ch pre).log = [] ∧ (vacate pc f ch pre).st.get x.cid = some x := by
+  obtain ⟨s1, s2⟩ := vacate_spec pc f ch pre hw x.cid
+  rw [hx] at s2
+  simp only [hnot, Bool.and_false, Bool.false_eq_true, if_false] at s2
+  refine ⟨s2, ?_⟩
+  rw [s1, get_commitAll hw, s2, hx]; rfl
+
+/-- **`PeerRemove` never removes a pin**: the key set of the pinset is preserved -/
+theorem vacate_never_removes (pc : PeerCfg) (f : Nat) (ch : Chosen) (rmOk : Bool) (members : List Nat) (pre : PinMap)
+    (hw : pre.wf = true) (c : Nat) :
+    ((peerRemove pc f ch rmOk members pre).st.get c).isSome = (pre.get c).isSome :=
+  vacate_keys pc f ch pre hw c
+
+/-- **Every re-home precedes the membership change**, which is attempted last whatever the re-pins did:
+    the trace is the committed LogPins in order, then `RmPeer`. -/
+theorem vacate_then_remove_order (pc : PeerCfg) (f : Nat) (ch : Chosen) (rmOk : Bool) (members : List Nat) (pre : PinMap) :
+    (peerRemove pc f ch rmOk members pre).trace =
+      (peerRemove pc f ch rmOk members pre).log.map RmEv.op ++ [.rmPeer f rmOk] ∧
+    ∀ (i j : Nat) (e : C04.LogEntry), (peerRemove pc f ch rmOk members pre).trace[i]? = some (RmEv.op e) →
+      (peerRemove pc f ch rmOk members pre).trace[j]? = some (RmEv.rmPeer f rmOk) → i < j := by
+  refine ⟨rfl, ?_⟩
+  intro i j e hi hj
+  unfold peerRemove at hi hj
+  simp only at hi hj
+  by_contra hlt
+  have hji : j ≤ i := Nat.le_of_not_lt hlt
+  have hjlen : j < ((vacate pc f ch pre).log.map RmEv.op).length := by
+    by_contra hge
+    have hge' : ((vacate pc f ch pre).log.map RmEv.op).length ≤ i := by omega
+    rw [List.getElem?_append_right hge'] at hi
+    cases hk : i - ((vacate pc f ch pre).log.map RmEv.op).length with
+    | zero => rw [hk] at hi; simp at hi
+    | succ n => rw [hk] at hi; simp at hi
+  rw [List.getElem?_append_left hjlen, List.getElem?_map] at hj
+  cases hg : (vacate pc f ch pre).log[j]? with
+  | none => rw [hg] at hj; simp at hj
+  | some e' => rw [hg] at hj; simp at hj
+
+/-- the removal is not aborted by a failed re-pin: what `PeerRemove` returns, and the peerset afterwards,
+    depend on `RmPeer` alone -/
+theorem peerRemove_not_aborted (pc : PeerCfg) (f : Nat) (ch : Chosen) (rmOk : Bool) (members : List Nat) (pre : PinMap) :
+    (peerRemove pc f ch rmOk members pre).err = !rmOk ∧
+    (rmOk = true → f ∉ (peerRemove pc f ch rmOk members pre).members) ∧
+    (rmOk = false → (peerRemove pc f ch rmOk members pre).members = members) := by
+  refine ⟨rfl, ?_, ?_⟩
+  · intro h; unfold peerRemove; simp [h]
+  · intro h; unfold peerRemove; simp [h]
+
+/-! ### expiry: the sweep of `StateSync` reaching every member -/
+
+/-- the round composition for the expiry sweep (pinsets of plain data pins; sharded content is removed with its
+    root by C04's unpin) -/
+theorem sync_round_cid (w : World) (sched : List Actor) (pre : PinMap)
+    (hA : AgreedRound w none sched) (hI : allData pre) (c : Nat) :
+    (∃ d ∈ sched, isClosest w d.pc.self none c = true ∧
+      roundFor c (roundSync sched pre).2 = (forCid c (syncAct d pre).log).map (fun e => (d.pc.self, e)) ∧
+      (roundSync sched pre).1.get c = (syncAct d pre).st.get c ∧
+      roundFor c (snapLogsSync sched pre) = roundFor c (roundSync sched pre).2) ∨
+    ((∀ a ∈ sched, isClosest w a.pc.self none c = false) ∧
+      roundFor c (roundSync sched pre).2 = [] ∧ (roundSync sched pre).1.get c = pre.get c ∧
+      roundFor c (snapLogsSync sched pre) = []) := by
+  rw [roundSync_eq, snapLogsSync_eq]
+  rcases decider_split hA c with h | ⟨s1, d, s2, e, hd, h1, h2⟩
+  · right
+    have hid : ∀ a ∈ sched, ∀ x : Pin, x.cid = c → syncSweeper.cond a x = false :=
+      fun a ha => sync_idle (hA.view a ha) (h a ha)
+    obtain ⟨j1, j2⟩ := roundWith_idle syncSweeper c sched pre hI hid
+    exact ⟨h, j1, j2, snap_idle syncSweeper c sched pre hI hid⟩
+  · left
+    subst e
+    have hid1 : ∀ a ∈ s1, ∀ x : Pin, x.cid = c → syncSweeper.cond a x = false :=
+      fun a ha => sync_idle (hA.view a (by simp [ha])) (h1 a ha)
+    have hid2 : ∀ a ∈ s2, ∀ x : Pin, x.cid = c → syncSweeper.cond a x = false :=
+      fun a ha => sync_idle (hA.view a (by simp [ha])) (h2 a ha)
+    obtain ⟨j1, j2⟩ := roundWith_decider syncSweeper c s1 s2 d pre hI hid1 hid2
+    refine ⟨d, by simp, hd, j1, j2, ?_⟩
+    rw [snap_decider syncSweeper c s1 s2 d pre hI hid1 hid2, j1]
+
+/-- one member's expiry sweep, cid by cid -/
+theorem syncAct_spec (a : Actor) (pre : PinMap) (hI : allData pre) (c : Nat) :
+    (syncAct a pre).st.get c = (forCid c (syncAct a pre).log).foldl effect (pre.get c) ∧
+    forCid c (syncAct a pre).log =
+      match pre.get c with
+      | some x => if syncCondFull a x then (if a.pc.follower then [] else [.logUnpin c]) else []
+      | none => [] := by
+  rw [syncSweeper.eq]
+  have hl := syncSweeper.isLocal a
+  refine ⟨by rw [(sweepAll_spec hl _ pre hI).2.1, get_commitAll hI.1], ?_⟩
+  rw [sweepAll_forCid hl _ pre hI c]
+  cases hg : pre.get c with
+  | none => rfl
+  | some x =>
+    simp only
+    have hxc := (get_some_mem hg).2
+    by_cases hc : syncSweeper.cond a x = true
+    · have hc' : syncCondFull a x = true := hc
+      rw [if_pos hc, if_pos hc']
+      show (unpinOut a.pc pre x).log = _
+      unfold unpinOut
+      rw [unpinOp_data _ _ _ hI.2, hxc, hg]
+      by_cases hf : a.pc.follower = true
+      · have : a.pc.cfg.follower = true := hf
+        rw [if_pos this, if_pos hf]; rfl
+      · have : ¬ a.pc.cfg.follower = true := hf
+        rw [if_neg this, if_neg hf]
+    · have hc' : ¬ syncCondFull a x = true := hc
+      rw [if_neg hc, if_neg hc']
+
+/-- **An expired pin is unpinned by exactly one peer and an unexpired pin by none** — in every order of the
+    members and under both commit disciplines. The one is the member closest to the cid (if it is a follower,
+    nobody unpins: followers skip the sweep). -/
+theorem expiry_once (w : World) (sched : List Actor) (pre : PinMap)
+    (hA : AgreedRound w none sched) (hI : allData pre) (x : Pin) (hx : pre.get x.cid = some x) :
+    (expired x = false →
+      roundFor x.cid (roundSync sched pre).2 = [] ∧ (roundSync sched pre).1.get x.cid = some x ∧
+      roundFor x.cid (snapLogsSync sched pre) = []) ∧
+    (expired x = true → ∀ d ∈ sched, isClosest w d.pc.self none x.cid = true →
+      (d.pc.follower = false →
+        roundFor x.cid (roundSync sched pre).2 = [(d.pc.self, .logUnpin x.cid)] ∧
+        (roundSync sched pre).1.get x.cid = none ∧
+        roundFor x.cid (snapLogsSync sched pre) = [(d.pc.self, .logUnpin x.cid)]) ∧
+      (d.pc.follower = true →
+        roundFor x.cid (roundSync sched pre).2 = [] ∧ (roundSync sched pre).1.get x.cid = some x)) := by
+  constructor
+  · intro hne
+    have hlog : ∀ a : Actor, forCid x.cid (syncAct a pre).log = [] := by
+      intro a
+      rw [(syncAct_spec a pre hI x.cid).2, hx]
+      have : syncCondFull a x = false := by unfold syncCondFull syncCond; rw [hne]; simp
+      simp [this]
+    rcases sync_round_cid w sched pre hA hI x.cid with ⟨d, _, _, r1, r2, r3⟩ | ⟨_, r1, r2, r3⟩
+    · refine ⟨by rw [r1, hlog d]; rfl, ?_, by rw [r3, r1, hlog d]; rfl⟩
+      rw [r2, (syncAct_spec d pre hI x.cid).1, hlog d, hx]; rfl
+    · exact ⟨r1, by rw [r2, hx], r3⟩
+  · intro he d hd hc
+    have hdd : ∀ d' ∈ sched, isClosest w d'.pc.self none x.cid = true → d' = d := by
+      intro d' hd' hc'
+      exact List.inj_on_of_nodup_map hA.once hd' hd (agreed_unique hA x.cid d' hd' d hd hc' hc)
+    rcases sync_round_cid w sched pre hA hI x.cid with ⟨d', hd', hc', r1, r2, r3⟩ | ⟨hn, _⟩
+    · have := hdd d' hd' hc'; subst this
+      have hcond : syncCond d'.w d'.pc x = true := by
+        unfold syncCond; rw [hA.view d' hd, he, hc]; rfl
+      constructor
+      · intro hf
+        have hlog : forCid x.cid (syncAct d' pre).log = [.logUnpin x.cid] := by
+          rw [(syncAct_spec d' pre hI x.cid).2, hx]
+          simp [syncCondFull, hf, hcond]
+        refine ⟨by rw [r1, hlog]; rfl, ?_, by rw [r3, r1, hlog]; rfl⟩
+        rw [r2, (syncAct_spec d' pre hI x.cid).1, hlog]; rfl
+      · intro hf
+        have hlog : forCid x.cid (syncAct d' pre).log = [] := by
+          rw [(syncAct_spec d' pre hI x.cid).2, hx]
+          simp [syncCondFull, hf]
+        refine ⟨by rw [r1, hlog]; rfl, ?_⟩
+        rw [r2, (syncAct_spec d' pre hI x.cid).1, hlog, hx]; rfl
+    · rw [hn d hd] at hc; cases hc
+
+/-- the expiry sweep never removes an unexpired pin and never adds one; the whole round's pinset is the
+    commit of the logged unpins -/
+theorem sync_state_is_commit (sched : List Actor) (pre : PinMap) (hI : allData pre) :
+    allData (roundSync sched pre).1 ∧ (roundSync sched pre).1 = commitAll pre (allEntries (roundSync sched pre).2) :=
+  roundWith_commit syncSweeper sched pre hI
+
+/-! ### the clock: `ExpiredAt` for every value of now -/
+
+/-- the abstract instants of the pin model are exactly what the clock says, for every clock value -/
+theorem expired_iff_clock (now : Int) (s : Stamp) (p : Pin) (h : p.opts.expire = s.abs now) :
+    expired p = expiredAt now s := by
+  unfold expired; rw [h]
+  cases s with
+  | zero => rfl
+  | «at» t =>
+    unfold Stamp.abs expiredAt
+    by_cases h0 : t = 0
+    · subst h0; rfl
+    · have : (t == 0) = false := by simpa using h0
+      by_cases hlt : t < now
+      · simp [this, hlt, h0]
+      · simp [this, hlt]
+
+/-- boundary: a pin whose expiry equals the clock has not expired (`Before` is strict); one nanosecond earlier it has;
+    the zero time and the unix epoch never expire -/
+theorem expiry_boundary (now : Int) :
+    expiredAt now (.at now) = false ∧ (now ≠ 1 → expiredAt now (.at (now - 1)) = true) ∧
+    expiredAt now .zero = false ∧ expiredAt now (.at 0) = false := by
+  refine ⟨by simp [expiredAt], ?_, rfl, by simp [expiredAt]⟩
+  intro h
+  have : now - 1 ≠ 0 := by omega
+  simp [expiredAt, this]
+  omega
+
+/-! ### per-member facts that hold whatever the other members do or see -/
+
+/-- A member only logs a pin for a CID it is closest to (in its own view). -/
+theorem onAlert_log_closest (w : World) (pc : PeerCfg) (f : Nat) (ch : Chosen) (pre : PinMap) (hw : pre.wf = true) (q : Pin)
+    (h : C04.LogEntry.logPin q ∈ (onAlert w pc f ch pre).log) : isClosest w pc.self (some f) q.cid = true := by
+  have hmem : C04.LogEntry.logPin q ∈ forCid q.cid (alertAct f ⟨w, pc, ch⟩ pre).log := mem_forCid.2 ⟨h, rfl⟩
+  rw [(onAlert_spec ⟨w, pc, ch⟩ f pre hw q.cid).2] at hmem
+  cases hg : pre.get q.cid with
+  | none => rw [hg] at hmem; cases hmem
+  | some x =>
+    rw [hg] at hmem
+    simp only at hmem
+    split_ifs at hmem with hc
+    · unfold alertCondFull alertCond at hc
+      simp only [Bool.and_eq_true] at hc
+      rw [← (get_some_mem hg).2]; exact hc.2.2
+    · cases hmem
+
+/-- Two different trusted members never both log a pin for the same CID for one failed peer, whatever pinsets
+    they read (any discipline, any lag), as long as they share the view of the peerset (distinct hashes). -/
+theorem alert_at_most_one_repinner (w : World) (f : Nat) (a b : PeerCfg) (cha chb : Chosen) (sa sb : PinMap)
+    (hwa : sa.wf = true) (hwb : sb.wf = true)
+    (qa qb : Pin) (hcid : qa.cid = qb.cid)
+    (ha : a.self ∈ w.members.map (·.1)) (hb : b.self ∈ w.members.map (·.1))
+    (hfa : a.self ≠ f) (hfb : b.self ≠ f) (hta : a.self ∉ w.untrusted) (htb : b.self ∉ w.untrusted)
+    (hdist : w.peerHash a.self = w.peerHash b.self → a.self = b.self)
+    (hla : C04.LogEntry.logPin qa ∈ (onAlert w a f cha sa).log)
+    (hlb : C04.LogEntry.logPin qb ∈ (onAlert w b f chb sb).log) : a.self = b.self := by
+  have h1 := onAlert_log_closest w a f cha sa hwa qa hla
+  have h2 := onAlert_log_closest w b f chb sb hwb qb hlb
+  rw [hcid] at h1
+  exact closest_at_most_one w (some f) qb.cid a.self b.self ha hb
+    (by simpa using hfa) (by simpa using hfb) hta htb hdist h1 h2
+
+/-- the expiry sweep only ever unpins expired pins -/
+theorem stateSync_only_expired (w : World) (pc : PeerCfg) (pre : PinMap) (c : Nat) (hI : allData pre)
+    (h : C04.LogEntry.logUnpin c ∈ (stateSync w pc pre).log) :
+    ∃ p ∈ pre, p.cid = c ∧ expired p = true := by
+  have hmem : C04.LogEntry.logUnpin c ∈ forCid c (syncAct ⟨w, pc, fun _ => []⟩ pre).log := mem_forCid.2 ⟨h, rfl⟩
+  rw [(syncAct_spec ⟨w, pc, fun _ => []⟩ pre hI c).2] at hmem
+  cases hg : pre.get c with
+  | none => rw [hg] at hmem; cases hmem
+  | some x =>
+    rw [hg] at hmem
+    simp only at hmem
+    split_ifs at hmem with hc
+    · cases hmem
+    · unfold syncCondFull syncCond at hc
+      simp only [Bool.and_eq_true] at hc
+      exact ⟨x, (get_some_mem hg).1, (get_some_mem hg).2, hc.2.1⟩
+    · cases hmem
+
+/-- a re-pin keeps every option of the pin (any type of pin, any outcome): only allocations may change -/
+theorem repin_preserves_options (pc : PeerCfg) (f : Nat) (ch : Chosen) (st : PinMap) (p : Pin)
+    (hw : st.wf = true) (hget : st.get p.cid = some p) (hst : p.stored = p)
     (h1 : p.opts.rmin ≠ 0) (h2 : p.opts.rmax ≠ 0) :
-    ∃ al, (repin pc f ch acc p).st.get p.cid = some { p with allocs := al } := by
-  unfold repin
-  simp only
-  unfold C04.pinOp
-  by_cases hf : pc.follower = true
+    ∃ al, (repinOut pc f ch st p).post.get p.cid = some { p with allocs := al } := by
+  unfold repinOut C04.pinOp
+  by_cases hf : pc.cfg.follower = true
   · simp only [hf, if_true]
     exact ⟨p.allocs, hget⟩
   · simp only [hf, Bool.false_eq_true, if_false, List.isEmpty_cons]
@@ -194,10 +1043,10 @@ theorem repin_preserves_options (pc : PeerCfg) (f : Nat) (ch : Chosen) (acc : Ac
         = { p with allocs := [] } := fun cfg' => setupFactors_noop cfg' _ h1 h2 rfl
     simp only [hs]
     have hcid : ({ p with allocs := [] } : Pin).cid = p.cid := rfl
-    have logged : ∀ al, ((C04.logPin acc.st ({ p with allocs := al } : Pin)).post.get p.cid)
+    have logged : ∀ al, ((C04.logPin st ({ p with allocs := al } : Pin)).post.get p.cid)
         = some { p with allocs := al } := by
       intro al
-      show (PinMap.put ({ p with allocs := al } : Pin).stored acc.st).get p.cid = _
+      show (PinMap.put ({ p with allocs := al } : Pin).stored st).get p.cid = _
       rw [stored_with_allocs p al hst, get_put hw]
       simp
     split_ifs
@@ -205,168 +1054,51 @@ theorem repin_preserves_options (pc : PeerCfg) (f : Nat) (ch : Chosen) (acc : Ac
     · exact ⟨p.allocs, hget⟩
     · exact ⟨p.allocs, hget⟩
     · exact ⟨[], logged []⟩
-    · -- allocate() consulted
-      have hk : C04.keepOrNew (acc.st.get p.cid) ({ p with allocs := [] } : Pin) [f] = { p with allocs := [] } := by
+    · have hk : C04.keepOrNew (st.get p.cid) ({ p with allocs := [] } : Pin) [f] = { p with allocs := [] } := by
         unfold C04.keepOrNew; rw [hget]; simp
       simp only [hcid, hk]
       split
       · exact ⟨ch p.cid, logged _⟩
       · exact ⟨p.allocs, hget⟩
     · rename_i hne
-      have hk : C04.keepOrNew (acc.st.get p.cid) ({ p with allocs := [] } : Pin) [f] = { p with allocs := [] } := by
+      have hk : C04.keepOrNew (st.get p.cid) ({ p with allocs := [] } : Pin) [f] = { p with allocs := [] } := by
         unfold C04.keepOrNew; rw [hget]; simp
-      simp only [hcid, hk] at hne
+      simp only [hk] at hne
       exact absurd rfl hne
 
-theorem repin_other_untouched (pc : PeerCfg) (f : Nat) (ch : Chosen) (acc : Acc) (p : Pin)
-    (hw : acc.st.wf = true) (c : Nat) (hc : c ≠ p.cid) : (repin pc f ch acc p).st.get c = acc.st.get c := by
-  unfold repin
-  simp only
-  have hsh := C04.shape_pinOp { pc.base with follower := pc.follower } acc.st { p with allocs := [] } [f] (ch p.cid)
+/-- a re-pin touches only that CID's entry -/
+theorem repin_other_untouched (pc : PeerCfg) (f : Nat) (ch : Chosen) (st : PinMap) (p : Pin)
+    (hw : st.wf = true) (c : Nat) (hc : c ≠ p.cid) : (repinOut pc f ch st p).post.get c = st.get c := by
+  unfold repinOut
+  have hsh := C04.shape_pinOp pc.cfg st { p with allocs := [] } [f] (ch p.cid)
   exact C04.shape_frame hsh hw c (by simpa using hc)
-
-/-! ### the expiry sweep only unpins expired pins -/
-theorem mem_erase_sub {m : PinMap} {c : Nat} {q : Pin} (h : q ∈ PinMap.erase m c) : q ∈ m := by
-  unfold PinMap.erase at h; exact List.mem_of_mem_filter h
-
-theorem mem_foldl_erase_sub (cs : List Nat) {m : PinMap} {q : Pin} (h : q ∈ cs.foldl PinMap.erase m) : q ∈ m := by
-  induction cs generalizing m with
-  | nil => exact h
-  | cons c t ih => exact mem_erase_sub (ih h)
-
-/-- unpinning never adds entries -/
-theorem unpinOp_sub (cfg : C04.Cfg) (st : PinMap) (c : Nat) {q : Pin} (h : q ∈ (C04.unpinOp cfg st c).post) : q ∈ st := by
-  unfold C04.unpinOp at h
-  split_ifs at h
-  · exact h
-  · split at h
-    · exact h
-    · split at h
-      · exact mem_erase_sub h
-      · split at h
-        · exact h
-        · split at h
-          · exact mem_foldl_erase_sub _ h
-          · exact h
-      · exact h
-
-theorem stateSync_only_expired (w : World) (pc : PeerCfg) (pre : PinMap) (c : Nat)
-    (h : C04.LogEntry.logUnpin c ∈ (stateSync w pc pre).log) (hdata : ∀ p ∈ pre, p.type = .dataT) :
-    ∃ p ∈ pre, p.cid = c ∧ expired p = true := by
-  unfold stateSync at h
-  split_ifs at h
-  · cases h
-  · suffices hgen : ∀ (l : List Pin) (acc : Acc),
-        (∀ q ∈ acc.st, q.type = .dataT) →
-        C04.LogEntry.logUnpin c ∈ (l.foldl (fun acc pin =>
-          if expired pin && isClosest w pc.self none pin.cid then
-            { st := (C04.unpinOp { pc.base with follower := pc.follower } acc.st pin.cid).post,
-              log := acc.log ++ (C04.unpinOp { pc.base with follower := pc.follower } acc.st pin.cid).log }
-          else acc) acc).log →
-        C04.LogEntry.logUnpin c ∈ acc.log ∨ ∃ p ∈ l, p.cid = c ∧ expired p = true by
-      rcases hgen pre { st := pre, log := [] } hdata h with h0 | h1
-      · cases h0
-      · exact h1
-    intro l
-    induction l with
-    | nil => intro acc _ hl; exact Or.inl hl
-    | cons x t ih =>
-      intro acc hd hl
-      rw [List.foldl_cons] at hl
-      by_cases hx : (expired x && isClosest w pc.self none x.cid) = true
-      · rw [if_pos hx] at hl
-        have hd' : ∀ q ∈ (C04.unpinOp { pc.base with follower := pc.follower } acc.st x.cid).post, q.type = .dataT :=
-          fun q hq => hd q (unpinOp_sub _ _ _ hq)
-        rcases ih _ hd' hl with h0 | ⟨p, hp, hpc, hpe⟩
-        · simp only [List.mem_append] at h0
-          rcases h0 with h0 | h0
-          · exact Or.inl h0
-          · right
-            refine ⟨x, by simp, ?_, by simp only [Bool.and_eq_true] at hx; exact hx.1⟩
-            rcases C04.shape_unpinOp { pc.base with follower := pc.follower } acc.st x.cid with
-              ⟨_, _, hlog⟩ | ⟨q, _, _, _, hlog⟩ | ⟨q, cs, hT, _, _, hlog⟩
-            · rw [hlog] at h0; cases h0
-            · rw [hlog] at h0; simp at h0
-            · rw [hlog] at h0
-              simp only [List.mem_map, C04.LogEntry.logUnpin.injEq] at h0
-              obtain ⟨k, hk, rfl⟩ := h0
-              have hkT := hT k hk
-              -- the shard group of a data pin is empty
-              have hsg : C04.targets.shardGroup { pc.base with follower := pc.follower } acc.st x.cid = [] := by
-                unfold C04.targets.shardGroup
-                cases hg : acc.st.get x.cid with
-                | none => rfl
-                | some e =>
-                  have := hd e (get_some_mem hg).1
-                  simp [this]
-              rw [hsg] at hkT
-              exact (List.mem_singleton.1 hkT).symm
-        · exact Or.inr ⟨p, List.mem_cons_of_mem _ hp, hpc, hpe⟩
-      · rw [if_neg hx] at hl
-        rcases ih _ hd hl with h0 | ⟨p, hp, hpc, hpe⟩
-        · exact Or.inl h0
-        · exact Or.inr ⟨p, List.mem_cons_of_mem _ hp, hpc, hpe⟩
-
-
-/-! ### at most one member re-pins a CID when a peer is declared failed -/
-
-/-- A member only logs a pin for a CID it is closest to. -/
-theorem onAlert_log_closest (w : World) (pc : PeerCfg) (f : Nat) (ch : Chosen) (pre : PinMap) (q : Pin)
-    (h : C04.LogEntry.logPin q ∈ (onAlert w pc f ch pre).log) : isClosest w pc.self (some f) q.cid = true := by
-  unfold onAlert at h
-  split_ifs at h
-  · cases h
-  · suffices hgen : ∀ (l : List Pin) (acc : Acc),
-        C04.LogEntry.logPin q ∈ (l.foldl (fun acc pin =>
-          if pin.allocs.contains f && isClosest w pc.self (some f) pin.cid then repin pc f ch acc pin else acc) acc).log →
-        C04.LogEntry.logPin q ∈ acc.log ∨ isClosest w pc.self (some f) q.cid = true by
-      rcases hgen pre { st := pre, log := [] } h with h0 | h1
-      · cases h0
-      · exact h1
-    intro l
-    induction l with
-    | nil => intro acc hl; exact Or.inl hl
-    | cons x t ih =>
-      intro acc hl
-      rw [List.foldl_cons] at hl
-      rcases ih _ hl with h0 | h1
-      · by_cases hx : (x.allocs.contains f && isClosest w pc.self (some f) x.cid) = true
-        · rw [if_pos hx] at h0
-          unfold repin at h0
-          simp only [List.mem_append] at h0
-          rcases h0 with h0 | h0
-          · exact Or.inl h0
-          · right
-            rcases C04.lshape_pinOp { pc.base with follower := pc.follower } acc.st { x with allocs := [] } [f] (ch x.cid) with hl' | ⟨q', hq', hl'⟩
-            · rw [hl'] at h0; cases h0
-            · rw [hl'] at h0
-              simp only [List.mem_singleton, C04.LogEntry.logPin.injEq] at h0
-              subst h0
-              simp only [Bool.and_eq_true] at hx
-              have : q.cid = x.cid := hq'
-              rw [this]; exact hx.2
-        · rw [if_neg hx] at h0; exact Or.inl h0
-      · exact Or.inr h1
-
-/-- Two different trusted members never both log a pin for the same CID in one alert round
-    (distinct hashes): the re-pin is done by at most one surviving peer. -/
-theorem alert_at_most_one_repinner (w : World) (f : Nat) (a b : PeerCfg) (cha chb : Chosen) (sa sb : PinMap)
-    (qa qb : Pin) (hcid : qa.cid = qb.cid)
-    (ha : a.self ∈ w.members.map (·.1)) (hb : b.self ∈ w.members.map (·.1))
-    (hfa : a.self ≠ f) (hfb : b.self ≠ f) (hta : a.self ∉ w.untrusted) (htb : b.self ∉ w.untrusted)
-    (hdist : w.peerHash a.self = w.peerHash b.self → a.self = b.self)
-    (hla : C04.LogEntry.logPin qa ∈ (onAlert w a f cha sa).log)
-    (hlb : C04.LogEntry.logPin qb ∈ (onAlert w b f chb sb).log) : a.self = b.self := by
-  have h1 := onAlert_log_closest w a f cha sa qa hla
-  have h2 := onAlert_log_closest w b f chb sb qb hlb
-  rw [hcid] at h1
-  exact closest_at_most_one w (some f) qb.cid a.self b.self ha hb
-    (by simpa using hfa) (by simpa using hfb) hta htb hdist h1 h2
 
 /-! Non-vacuity: three members with distinct hashes; exactly one passes `isClosest` for the CID. -/
 private def exW : World := { members := [(0, 12), (1, 7), (2, 33)], cidHash := [(5, 9)], untrusted := [] }
 example : isClosest exW 0 (some 1) 5 = true ∧ isClosest exW 2 (some 1) 5 = false ∧
     isClosest exW 1 none 5 = false ∧ (others exW 0 (some 1)) = [2] := by decide
+
+
+/-! Non-vacuity of the round theorems: a three-member agreed round in which member 0 is the decider for cid 5,
+    the pin (held by the failed member 1 only, min 1) is re-pinnable and an allocation exists. -/
+private def exBase2 : C04.Cfg :=
+  { follower := false, defMin := 1, defMax := 1, desc := false,
+    peers := [(0, .valid 1), (2, .valid 2)], paths := [], blocks := [] }
+private def exPin : Pin :=
+  { cid := 5, type := .dataT, depth := -1, allocs := [1], ref := none,
+    opts := { rmin := 1, rmax := 1, name := 0, mode := .recursive, shard := 0, expire := .zero,
+              metadata := [], update := none, origins := [], ualloc := [] } }
+private def exA0 : Actor := { w := exW, pc := { self := 0, follower := false, disableRepin := false, base := exBase2 }, ch := fun _ => [0] }
+private def exA2 : Actor := { w := exW, pc := { self := 2, follower := false, disableRepin := false, base := exBase2 }, ch := fun _ => [2] }
+example : roundFor 5 (roundSeq 1 [exA2, exA0] [exPin]).2 = [(0, .logPin { exPin with allocs := [0] })] ∧
+    (roundSeq 1 [exA2, exA0] [exPin]).1 = [{ exPin with allocs := [0] }] ∧
+    (roundSeq 1 [exA0, exA2] [exPin]).1 = [{ exPin with allocs := [0] }] ∧
+    C03.allocate (repinInput exA0.pc 1 exPin) = .ok [0] ∧ canAct exA0.pc = true ∧
+    (C03.curIds (repinInput exA0.pc 1 exPin)).length = 0 := by decide
+example : (peerRemove exA0.pc 1 exA0.ch true [0, 1, 2] [exPin]).trace =
+    [.op (.logPin { exPin with allocs := [0] }), .rmPeer 1 true] := by decide
+private def exOld : Pin := { exPin with opts := { exPin.opts with expire := .past } }
+example : roundFor 5 (roundSync [exA2, exA0] [exOld]).2 = [(0, .logUnpin 5)] ∧ (roundSync [exA2, exA0] [exOld]).1 = [] := by decide
 
 /-! ### the handler loop is memoryless -/
 
